@@ -55,14 +55,18 @@ func (r *Router) route(s Sender, p stanza.Packet) {
 	}
 	iq, isIq := p.(*stanza.IQ)
 	if isIq {
-		r.IQResultRouteLock.RLock()
+		// Take the pending route out of the table in one step: exactly one response can be delivered on it,
+		// concurrent duplicates fall through to the ordinary routes.
+		r.IQResultRouteLock.Lock()
 		route, ok := r.IQResultRoutes[iq.Id]
-		r.IQResultRouteLock.RUnlock()
+		if ok {
+			delete(r.IQResultRoutes, iq.Id)
+		}
+		r.IQResultRouteLock.Unlock()
 		if ok {
 			verifPoint("route.iqresult.found", iq.Id)
-			r.IQResultRouteLock.Lock()
-			delete(r.IQResultRoutes, iq.Id)
-			r.IQResultRouteLock.Unlock()
+			// The channel has room for the one response, so this never blocks packet processing,
+			// even if the caller gave up reading.
 			route.result <- *iq
 			close(route.result)
 			return
@@ -203,7 +207,7 @@ type IQResultRoute struct {
 func NewIQResultRoute(ctx context.Context) *IQResultRoute {
 	return &IQResultRoute{
 		context: ctx,
-		result:  make(chan stanza.IQ),
+		result:  make(chan stanza.IQ, 1),
 	}
 }
 
